@@ -465,6 +465,17 @@ def check_caller(rep, repo):
     others = [en for en in ents if en[2] != NONE]
     uses_var = any(contains(('x', en[2]) + tuple(g for _, g in en[3]), lambda x: x[0] == 'attr' and x[2] == 'varValue') for en in others)
     none_neg = len(nones) == 1 and contains(nones[0][3][-1][1], lambda x: x[0] == 'not')
+    if none_neg:
+        # the "nothing selected" test must be about THIS row: a flag carried over from earlier rows is stale
+        g_none = nones[0][3][-1][1]
+        row_b = nones[0][3][-1][0]
+        stale = [x for x in walk(g_none) if x[0] in ('carried', 'prefix')]
+        local = [x for x in walk(g_none) if x[0] == 'accum' and x[2] and all(len(e_[3]) == 1 and e_[3][0][0][3] == row_b for e_ in x[2])]
+        if stale and not local:
+            rep.fail('C06.R4', wn.where, 'an unassigned student gets a None entry: the "no pair selected" test looks at the pairs of that student only',
+                     got='None is appended when (%s): %s is carried over from the rows before' % (show(g_none)[:80], show(stale[0])), want='a flag reset for every row (or any(...) over the row)',
+                     construct='with_none stale flag')
+            return
     rep.check(rows_ok and len(nones) == 1 and others and uses_var and none_neg, 'C06.R4', wn.where,
               'the per-student list has one entry per row of pairs: the pair whose variable is set, or None when no variable of the row is set',
               got=[(op, show(v)[:50]) for op, _, v, _ in ents], want='per row: selected pair(s) by varValue, else None', construct='with_none schema')
